@@ -26,8 +26,27 @@ struct Family {
 
    Set of_name(std::u8string_view w) const
    {
-      Basic b { lex.get_logogram(lex.get_string(w)) };
-      if constexpr (std::is_same_v<Set, Specifiers>) return L.specifiers(b); else return L.qualifiers(b);
+      // The question in every form a client can write it: through the interface with the name wrapped, on the implementation object
+      // with the name wrapped, and on the implementation object with the bare logogram (which converts to the name).  The forms
+      // must agree: all answer with the same set, or all refuse.
+      const Logogram& logo = lex.get_logogram(lex.get_string(w));
+      Basic b { logo };
+      auto ask = [&](int form, Set& out) -> bool {
+         try {
+            if constexpr (std::is_same_v<Set, Specifiers>) out = form == 0 ? L.specifiers(b) : form == 1 ? lex.specifiers(b) : lex.specifiers(logo);
+            else out = form == 0 ? L.qualifiers(b) : form == 1 ? lex.qualifiers(b) : lex.qualifiers(logo);
+            return true;
+         } catch (...) { return false; }      // a refusal is any exception (the library throws a class of its own)
+      };
+      Set r[3] { }; bool ok[3];
+      for (int f = 0; f < 3; ++f) ok[f] = ask(f, r[f]);
+      ctx().count("names_asked_in_every_call_form");
+      for (int f = 1; f < 3; ++f) {
+         if (ok[f] != ok[0]) ctx().viol(std::string(tag) + (ok[f] ? ":unknown-name-answered" : ":basic-name-refused") + ":call-form-" + (f == 1 ? "implementation-object" : "bare-logogram"), std::string("the name '") + narrow(w) + "' is " + (ok[f] ? "answered" : "refused") + " when asked " + (f == 1 ? "on the implementation object" : "on the implementation object with the bare logogram") + " but " + (ok[0] ? "answered" : "refused") + " through the interface");
+         else if (ok[f] && r[f] != r[0]) ctx().viol(std::string(tag) + ":call-forms-disagree", std::string("the name '") + narrow(w) + "' maps to different sets depending on the form of the call");
+      }
+      if (!ok[0]) throw std::domain_error("refused");
+      return r[0];
    }
    // names(set) as a bitmask over OUR name list, via decompose; reports repeats / unknown elements
    std::uint32_t names_of(Set s, bool& ok) const
